@@ -176,11 +176,41 @@ def iteration(path: Path, loop: ast.AST) -> Optional[tuple[int, int]]:
     return start, end
 
 
-def same_function(model, got: ast.AST, want_src: str, aliases: dict) -> tuple[bool, str]:
-    """Truth-table comparison of a formula recovered from the code with a required one (written over the alias names)."""
+def _assume(pr, b, facts: dict):
+    if b[0] == "lit":
+        if b[1] in facts:
+            return ("const", facts[b[1]] == b[2])
+        return b
+    if b[0] in ("and", "or"):
+        return pr._mk(b[0], [_assume(pr, x, facts) for x in b[1]])
+    return b
+
+
+def same_function(model, got: ast.AST, want_src: str, aliases: dict, assume: Optional[dict] = None) -> tuple[bool, str]:
+    """Truth-table comparison of a formula recovered from the code with a required one (written over the alias names).
+    `assume` fixes atoms (canonical print -> bool) on both sides before comparing."""
     from .symflow import Printer, parse_expr
     pr = Printer(model, [], aliases, canonical=True)
     sp = Printer(model, [], {}, canonical=True)
     g, w = pr._bool(got), sp._bool(parse_expr(want_src))
+    if assume:
+        g, w = _assume(pr, g, assume), _assume(pr, w, assume)
     t = pr._tables([g, w])
     return (t is not None and t[1][0] == t[1][1]), Printer(model, [], aliases)._show_bool(g)
+
+
+def iteration_paths(fn_node: ast.AST, loop: ast.AST, keep: Iterable[str] = ()):
+    """For every (feasible) path that enters `loop`: (path, [SymEvent] of the unfolded iteration, condition of the iteration)."""
+    from .paths import function_paths
+    seen: set = set()
+    for p in function_paths(fn_node):
+        it = iteration(p, loop)
+        if it is None:
+            continue
+        sig = tuple((id(e.node), e.pol, e.kind) for e in p.events[it[0]:it[1]]) + (p.term if it[1] >= len(p.events) else "",)
+        if sig in seen:
+            continue
+        seen.add(sig)
+        evs = sym_events(p, keep=keep)
+        body = [se for se in evs if it[0] < se.index < it[1]]
+        yield p, body, conj(tests_of(evs, it[0] + 1, it[1])), it[1] >= len(p.events)
